@@ -795,7 +795,7 @@ func (e *Eng) slice(fr *Frame, st *State, in *ssa.Slice) Val {
 func (e *Eng) makeSlice(fr *Frame, st *State, in *ssa.MakeSlice) Val {
 	l := toI64(in.Len.Type(), e.val(fr, in.Len).(T))
 	c := toI64(in.Cap.Type(), e.val(fr, in.Cap).(T))
-	e.safe(fr, st, "makeslice", tAnd(app("bvsle", i64(0), l), app("bvsle", l, c), app("bvsle", c, i64(maxLen))), in, "make: 0 <= len <= cap")
+	e.safe(fr, st, "makeslice", tAnd(app("bvsle", i64(0), l), app("bvsle", l, c)), in, "make: 0 <= len <= cap")
 	et := under(in.Type()).(*types.Slice).Elem()
 	if e.fc != nil && e.fc.AllocBound != "" && !fr.pure {
 		bound := e.evalSpecByName(e.fc.AllocBound, st, e.entry, nil, nil)
